@@ -18,25 +18,29 @@ open Consts WFField Evolve
 
     `MembersOK` is the member-wise form of C03's `WellTyped` (tag < 256, `TyOK`, `DfltOK`, `WT`,
     `OldOK`) plus `needVar v ≤ N`.  Remaining model artefacts: the fuel `decFuel` of both runs
-    exceeds `N + #members`, and is large enough for `ResetDefault` not to be cut short (`hstable`,
-    see `C04_resetDefault_stable`). -/
+    exceeds `N + #members` and the rank `rk S ≤ env.length` of the struct (the latter so that
+    `ResetDefault`, which descends the by-value nesting of the schema without consuming input, is
+    not cut short: `EnvWF` makes that nesting acyclic, `C04_resetDefault_stable_acyclic`).
+    `decFuel = (width+3)·(size+2) ≥ 6` does not dominate `env.length`: `hL`, `hL'` are vacuous for
+    nesting depth ≤ 5 (`C04_rank_small`) and would be for every schema with `+ env.length` added
+    to `decFuel`. -/
 theorem C04_unknown_ignored (env : Env) (rk : String → Nat) (hE : EnvWF env rk) (N : Nat)
     (S : String) (fs : List Field) (vals ovs : List Val) (gaps : List (List WFField))
     (tail : List WFField) (r r' : Reader) (t t' : Bytes)
     (hfind : env.find S = some fs) (hlo : ovs.length = fs.length) (hlv : vals.length = fs.length)
     (hlg : gaps.length = fs.length)
-    (hstable : resetDefault env (decFuel env r') fs ovs = resetDefault env (decFuel env r) fs ovs)
     (hok : MembersOK env rk N fs (resetDefault env (decFuel env r) fs ovs) vals)
     (hadm : Admissible 0
       (gaps.zip (encSlots env fs (resetDefault env (decFuel env r) fs ovs) vals)) tail)
     (hF : N + fs.length < decFuel env r) (hF' : N + fs.length < decFuel env r')
+    (hL : rk S < decFuel env r) (hL' : rk S < decFuel env r')
     (ht : Evolve.Terminated t) (ht' : Evolve.Terminated t')
     (h : r.rest = merged
       (gaps.zip (encSlots env fs (resetDefault env (decFuel env r) fs ovs) vals)) tail ++ t)
     (h' : r'.rest = encStruct env S (.struct vals) ++ t') :
     (decStruct env S (.struct ovs) r).1 = (decStruct env S (.struct ovs) r').1 :=
-  C04_unknown_ignored_enc_partial env N S fs vals ovs gaps tail r r' t t' hfind hlo hlv hlg hstable
-    hadm (encSlots_ok env rk hE N fs _ vals hok) hF hF' ht ht' h h'
+  C04_unknown_ignored_enc_partial env rk (envAcyclic_of_envWF hE) N S fs vals ovs gaps tail r r' t t'
+    hfind hlo hlv hlg hadm (encSlots_ok env rk hE N fs _ vals hok) hF hF' hL hL' ht ht' h h'
 
 /-- non-vacuity: all hypotheses hold together for the schema, value and unknown fields of the
     example in Props/C04.lean (`a = 5`, `b = ""` left out by the writer) -/
@@ -70,13 +74,12 @@ example :
     simp [encSlots, C04_exFs, C04_exItems, encVar, Ty.isScalar, scalarNeDefault, scalarZero, writeScalar]
   refine C04_unknown_ignored C04_exEnv (fun _ => 0) hwf 1 "S" C04_exFs [.int 5, .str []] _
     [[.zero 0, .string1 1 [Tars.byte 65]], [.list 3 [.zero 0, .zero 0]]] C04_exTail _ _ [] []
-    hfind rfl rfl rfl ?_ ?_ ?_ ?_ ?_ (.inl rfl) (.inl rfl) ?_ (hr _)
-  · rw [hf1, hf2, hold]
-    simp [C04_exFs, Evolve.resetDefault_cons, resetDefault_nil_left, resetMember, zeroOf, zeroVal,
-      scalarZero]
+    hfind rfl rfl rfl ?_ ?_ ?_ ?_ ?_ ?_ (.inl rfl) (.inl rfl) ?_ (hr _)
   · rw [hf1, hold]
     simp [MembersOK, C04_exFs, TyOK, DfltOK, WT, ScalarOK, OldOK, Ready, Ty.isAtom, Ty.isScalar, scalarZero, needVar]
   · rw [hf1, hold, hitems]; simp +decide [Admissible, C04_exItems, C04_exTail]
+  · rw [hf1]; decide
+  · rw [hf2]; decide
   · rw [hf1]; decide
   · rw [hf2]; decide
   · rw [hf1, hold, hitems]; exact hr _
